@@ -1,3 +1,3 @@
 SPECIFICATION Spec
-INVARIANTS Relabelling FaceGraph Dump
+INVARIANTS Relabelling FaceGraph SectorsConsistent Dump
 CHECK_DEADLOCK FALSE
